@@ -22,6 +22,7 @@ type SeqProfile struct {
 	Collide   bool    // use both enum strings of the 32-bit hash collision pair
 	Lag       float64 // probability that the replica does NOT catch up at a dump (it always does at the end)
 	Replica   bool    // keep a replica R fed from the stream and dump it too
+	Chain     bool    // R emits its own stream (it is a primary too): a second replica R2 is fed from it
 	Prologue  string  // "", "block1", "sparse", "three"
 	Steps     int
 	PFailIns  float64 // an insert callback fails
@@ -42,6 +43,7 @@ type seqGen struct {
 	rnd     *rand.Rand
 	w       *World
 	P, R    *Coll
+	R2      *Coll // a replica of the replica (fed from R's own stream), or nil
 	live    []uint32
 	dumpN   int
 	final   bool
@@ -125,6 +127,10 @@ func (g *seqGen) dump() {
 	if g.R != nil && (g.final || g.rnd.Float64() >= g.p.Lag) {
 		g.P.ReplayTo(g.R, "r")
 		g.R.Dump(g.dumpN % 3)
+		if g.R2 != nil && (g.final || g.rnd.Float64() >= g.p.Lag) {
+			g.R.ReplayTo(g.R2, "r2")
+			g.R2.Dump(g.dumpN % 3)
+		}
 	}
 }
 
@@ -151,6 +157,9 @@ func (g *seqGen) schemaStep() {
 		if g.R != nil {
 			f(g.R)
 		}
+		if g.R2 != nil {
+			f(g.R2)
+		}
 	}
 	n := 4
 	if g.p.PDropCol > 0 {
@@ -174,6 +183,9 @@ func (g *seqGen) schemaStep() {
 		g.dropped = append(g.dropped, d)
 		if g.R != nil { // the replica is brought up to date first: the stream carries no schema changes
 			g.P.ReplayTo(g.R, "r")
+			if g.R2 != nil {
+				g.R.ReplayTo(g.R2, "r2")
+			}
 		}
 		both(func(c *Coll) { c.DropColumn(d.Name) })
 	case 0: // late column, or a dropped one again
@@ -345,25 +357,34 @@ func RunSeq(seed int64, p SeqProfile) (out []Ev) {
 	if p.Replica {
 		g.R = w.NewColl("R", p.Capacity, p.Transport, 0)
 	}
+	if p.Replica && p.Chain {
+		g.R2 = w.NewColl("R2", p.Capacity, p.Transport, 0)
+	}
+	var copies []*Coll
+	for _, c := range []*Coll{g.R, g.R2} {
+		if c != nil {
+			copies = append(copies, c)
+		}
+	}
 	if p.Keyed {
 		g.P.Keys = []string{"k0", "k1", "k2", "k3", "k4"} // k0 is the empty string
-		if g.R != nil {
-			g.R.Keys = g.P.Keys
+		for _, c := range copies {
+			c.Keys = g.P.Keys
 		}
 	}
 	InstallSeqHook(w)
 	defer UninstallHook()
 	for _, d := range p.Cols {
 		g.P.CreateColumn(d)
-		if g.R != nil {
-			g.R.CreateColumn(d)
+		for _, c := range copies {
+			c.CreateColumn(d)
 		}
 	}
 	if p.SortFirst {
 		for _, x := range p.Sorts {
 			g.P.CreateSort(x[0], x[1])
-			if g.R != nil {
-				g.R.CreateSort(x[0], x[1])
+			for _, c := range copies {
+				c.CreateSort(x[0], x[1])
 			}
 		}
 	}
